@@ -359,7 +359,7 @@ TEv(name, id, ty)       == [name |-> name, id |-> id, ty |-> ty]
 TService(s, n, uuid, ver, fns, evs, fnfb, evfb) ==
   [k |-> "service", schema |-> s, name |-> n, uuid |-> uuid, ver |-> ver, fns |-> fns, evs |-> evs,
    fnfb |-> fnfb, evfb |-> evfb]
-Universe(defs) == [defs |-> defs, rord |-> "fwd", docs |-> "none"]
+Universe(defs) == [defs |-> defs, rord |-> "fwd", docs |-> "none", impl |-> "slots"]
 
 SeqRange(s) == {s[i] : i \in 1 .. Len(s)}
 IsDefRef(P, t) == t.k = "ext" /\ \E d \in SeqRange(P.defs) : d.schema = t.schema /\ d.name = t.name
